@@ -132,6 +132,8 @@ impl MetricsCollector {
     ///
     /// Returns a `MetricsError` if the metric name is invalid or already exists.
     pub fn register(&mut self, metric: Box<dyn Metric>) {
+        #[cfg(feature = "verif-hooks")]
+        crate::verif_hooks::yield_point("metrics:register:0");
         let mut inner = self.inner.lock().unwrap();
         inner.metrics.insert(metric.name().to_string(), metric);
     }
@@ -149,6 +151,8 @@ impl MetricsCollector {
     ///
     /// Returns a `MetricsError` if the metric name is invalid or already exists.
     pub fn record_start(&self) {
+        #[cfg(feature = "verif-hooks")]
+        crate::verif_hooks::yield_point("metrics:record_start:0");
         let mut inner = self.inner.lock().unwrap();
         inner.start_time = Some(Instant::now());
     }
@@ -159,6 +163,8 @@ impl MetricsCollector {
     ///
     /// Returns a `MetricsError` if the metric name is invalid or already exists.
     pub fn record_end(&self) {
+        #[cfg(feature = "verif-hooks")]
+        crate::verif_hooks::yield_point("metrics:record_end:0");
         let mut inner = self.inner.lock().unwrap();
         inner.end_time = Some(Instant::now());
     }
@@ -170,6 +176,8 @@ impl MetricsCollector {
     /// Returns a `MetricsError` if the metric name is invalid or already exists.
     #[must_use]
     pub fn elapsed(&self) -> Option<Duration> {
+        #[cfg(feature = "verif-hooks")]
+        crate::verif_hooks::yield_point("metrics:elapsed:0");
         let inner = self.inner.lock().unwrap();
         match (inner.start_time, inner.end_time) {
             (Some(start), Some(end)) => Some(end.duration_since(start)),
@@ -185,6 +193,8 @@ impl MetricsCollector {
     ///
     /// Returns a `MetricsError` if the metric name is invalid or already exists.
     pub fn increment_counter(&self, name: &str, value: u64) {
+        #[cfg(feature = "verif-hooks")]
+        crate::verif_hooks::yield_point("metrics:increment_counter:0");
         let mut inner = self.inner.lock().unwrap();
         if let Some(metric) = inner.metrics.get_mut(name) {
             // Try to downcast to CounterMetric and increment
@@ -212,6 +222,8 @@ impl MetricsCollector {
     ///
     /// Panics if the metric name is invalid or already exists.
     pub fn set_counter(&self, name: &str, value: u64) {
+        #[cfg(feature = "verif-hooks")]
+        crate::verif_hooks::yield_point("metrics:set_counter:0");
         let mut inner = self.inner.lock().unwrap();
         inner.metrics.insert(
             name.to_string(),
@@ -229,6 +241,8 @@ impl MetricsCollector {
     /// Returns a `MetricsError` if the metric name is invalid or already exists.
     #[must_use]
     pub fn to_json(&self) -> Value {
+        #[cfg(feature = "verif-hooks")]
+        crate::verif_hooks::yield_point("metrics:to_json:0");
         let inner = self.inner.lock().unwrap();
         let mut metrics_json = Map::new();
 
@@ -264,6 +278,8 @@ impl MetricsCollector {
     pub fn print(&self) {
         println!("\n========== Pipeline Metrics ==========");
 
+        #[cfg(feature = "verif-hooks")]
+        crate::verif_hooks::yield_point("metrics:print:0");
         let inner = self.inner.lock().unwrap();
 
         // Print execution time first if available
@@ -311,6 +327,8 @@ impl MetricsCollector {
     /// Returns a `MetricsError` if the metric name is invalid or already exists.
     #[must_use]
     pub fn snapshot(&self) -> HashMap<String, Value> {
+        #[cfg(feature = "verif-hooks")]
+        crate::verif_hooks::yield_point("metrics:snapshot:0");
         let inner = self.inner.lock().unwrap();
         inner
             .metrics
